@@ -66,6 +66,9 @@ class VG:
                 return ("const", repr(self.consts[e.id]))
             return self.env.get(e.id, ("glob", e.id))
         if isinstance(e, ast.Attribute):
+            key = ast.unparse(e)
+            if key in self.env:  # attribute assigned earlier in this region (flow-sensitive fields)
+                return self.env[key]
             b = self.ev(e.value)
             if b == ("sym", "self") and self.cls and self.inline:
                 pf = self.find(e.attr)
